@@ -83,7 +83,12 @@ func BuildMsg(kr *Keyring, s TxSpec) sdk.Msg {
 	case "dao_transfer":
 		return govTypes.MsgDAOTransfer{FromAddress: a.Addr, ToAddress: kr.Get(s.To).Addr, Amount: sdkInt(s.Amount), Action: govTypes.DAOTransferString}
 	case "dao_burn":
-		return govTypes.MsgDAOTransfer{FromAddress: a.Addr, Amount: sdkInt(s.Amount), Action: govTypes.DAOBurnString}
+		m := govTypes.MsgDAOTransfer{FromAddress: a.Addr, Amount: sdkInt(s.Amount), Action: govTypes.DAOBurnString}
+		if s.Entropy%2 == 0 {
+			// a burn that (needlessly, legally) names a recipient: it is still a burn
+			m.ToAddress = kr.Get(s.To).Addr
+		}
+		return m
 	case "upgrade":
 		return govTypes.MsgUpgrade{Address: a.Addr, Upgrade: govTypes.Upgrade{Height: s.UpgradeHeight, Version: s.UpgradeVersion}}
 	case "award":
